@@ -141,7 +141,7 @@ class Ctx:
     cur: 'Ctx | None' = None
 
     def __init__(self, prefix=(), model=None, round_mode='lite', rlimit=40_000_000, timeout_ms=120_000,
-                 lowering='cleared', seed=0, lite_digits=8):
+                 lowering='cleared', seed=0, lite_digits=8, branch_timeout_ms=20_000):
         self.prefix = list(prefix)
         self.trace: list[bool] = []
         self.pending: list[tuple[list[bool], dict | None]] = []
@@ -164,6 +164,9 @@ class Ctx:
         self.signs: dict = {}       # term -> set of still-possible signs (decision cache)
         self.roundings = 0
         self.round_cache: dict = {}
+        self.concolic = False
+        self.branch_timeout_ms = branch_timeout_ms
+        self.timeout_ms = timeout_ms
         self.eq_decisions = 0      # decisions/assumptions of the form f == 0 on this path (measure-zero paths)
         self.min_margin: Fraction | None = None
         self.inputs: dict[str, int] = {}   # user-named reals -> gen index
@@ -256,6 +259,14 @@ class Ctx:
             self.stats.unknown += 1
         return r
 
+    def check_branch(self, *extra):
+        """feasibility query of a decision: shorter budget; an `unknown` here is treated as feasible by the caller"""
+        self.solver.set("timeout", self.branch_timeout_ms)
+        try:
+            return self.check(*extra)
+        finally:
+            self.solver.set("timeout", self.timeout_ms)
+
     def extract_model(self):
         m = self.solver.model()
         out = []
@@ -330,6 +341,17 @@ class Ctx:
             if not (poss & want):
                 self.stats.cached_decisions += 1
                 return False
+        if self.concolic:
+            # follow the current model without exploring the other side (used for probes whose outcome is irrelevant)
+            if not (self.model is not None and self.model_valid):
+                self.ensure_model()
+            v = self.eval_model(f) if (self.model is not None and self.model_valid) else None
+            if v is not None:
+                taken = _cmp0(v, op)
+                self.solver.add(self.sign_cond(f, op if taken else _NEG[op]))
+                self._note_sign(f, op, taken)
+                self.stats.model_decisions += 1
+                return taken
         i = len(self.trace)
         if i < len(self.prefix):
             d = self.prefix[i]
@@ -350,7 +372,7 @@ class Ctx:
             taken = _cmp0(v, op)
             self.stats.model_decisions += 1
             other_cond = self.sign_cond(f, _NEG[op] if taken else op)
-            r = self.check(other_cond)
+            r = self.check_branch(other_cond)
             if r == z3.sat:
                 # model of the other side, delivered with the queued prefix
                 m = self.extract_model()
@@ -371,11 +393,11 @@ class Ctx:
         # no usable model: ask both sides
         ct = self.sign_cond(f, op)
         cf = self.sign_cond(f, _NEG[op])
-        rt = self.check(ct)
+        rt = self.check_branch(ct)
         mt = None
         if rt == z3.sat:
             mt = self.extract_model()
-        rf = self.check(cf)
+        rf = self.check_branch(cf)
         mf = None
         if rf == z3.sat:
             mf = self.extract_model()
